@@ -171,6 +171,12 @@ def build4(name="EQ"):
     m.add("E5", Type("SET", comps=dfl("5")))
     m.add("E6", Type("SEQUENCE OF", elem=Type("REF", ref="E2")))
     m.add("E7", Type("SEQUENCE", comps=[Comp("bs7", Type("BIT STRING")), Comp("in7", Type("REF", ref="E2")), Comp("so7", Type("REF", ref="E3"))]))
+    # character string DEFAULTs (the generated setter allocates a copy), in the root and among the additions
+    m.add("E8", Type("SEQUENCE", comps=[Comp("s8", Type("IA5String"), has_default=True, default="hello"),
+                                        Comp("u8", Type("UTF8String"), has_default=True, default=""),
+                                        Comp("n8", Type("INTEGER")),
+                                        Comp("v8", Type("VisibleString"), has_default=True, default="a longer default value, 40 characters..")],
+                      ext=[Comp("x8", Type("IA5String"), has_default=True, default="ext")]))
     for t in m.types.values():
         _gen._set_module(t, m)
     m.finalize()
@@ -197,6 +203,8 @@ def values4(mod, name, rng, quick):
         out = [[], EQ_INTS[5:9], EQ_INTS[-6:]]
     elif name == "E7":
         out = [{"bs7": (b"\xa8", 5), "in7": -128, "so7": [2, 1]}, {"bs7": (b"\x80", 1), "in7": -32768, "so7": [-128, -129, 0]}]
+    elif name == "E8":
+        out = [{"n8": 1}, {"s8": "hello", "n8": 2}, {"s8": "other", "u8": "x", "n8": 3}, {"n8": 4, "v8": "v", "x8": "y"}, {"n8": 5, "x8": "ext"}]
     return out
 
 
